@@ -204,7 +204,7 @@ def run_idem(scn, stats):
         stats.sample({"definition": defn, "history": common.history_summary(r, 30), "poll_points": ob.points})
 
 
-CFG = gen.cfg(items=0.2, retry=0.2, retry_cmd=True, p_loop=0.25, max_tasks=8)
+CFG = gen.cfg(items=0.2, retry=0.2, retry_cmd=True, p_loop=0.25, max_tasks=8, dict_vals=True)
 CONTROLS = {"pause": 1, "resume": 1, "cancel": 1, "restore": 1}
 
 
